@@ -3,7 +3,7 @@ import json
 
 from .. import sessprop, pipeline
 
-KINDS = {'ev', 'wr', 'wrf', 'sock', 'rd', 'conn'}
+KINDS = {'ev', 'wr', 'wrf', 'sock', 'rd', 'conn', 'call'}
 ALL_REPLIES = ["ok200", "ok200_headers", "st407", "st500", "st201", "garbage", "unterminated_eof", "oversize", "oversize_unterminated",
                "immediate_eof", "recv_error", "recv_boom", "partial_then_error"]
 
@@ -32,6 +32,12 @@ def scenario(b, variant):
         elif variant == 2:
             proxies[key] = ''
     env = None
+    during = None
+    if variant == 4:
+        # another thread of the application sends while the loop thread is blocked in connect() and in the read of the
+        # proxy's answer: nothing of it may reach the proxy socket
+        during = {"connect#0": [["send_ping", [1]]], "proxy_recv#0": [["send_text", "x"], ["send_binary", [1, 2]]]}
+        variant = 0
     if variant == 3:        # the mapping is taken from the environment (proxies=None)
         env = {k: v for k, v in (('HTTP_PROXY', proxies.get('http')), ('HTTPS_PROXY', proxies.get('https'))) if v}
         proxies = 'env'
@@ -42,6 +48,8 @@ def scenario(b, variant):
         # an explicit mapping - even an empty one - takes precedence over whatever the environment says
         env = {'HTTP_PROXY': 'http://decoy-proxy.invalid:3128', 'HTTPS_PROXY': 'http://decoy-proxy.invalid:3128'}
     sc['env'] = env
+    if during:
+        sc['during'] = during
     if b['script']['reply'] != 'none':
         sc['conns'][0]['proxy_reply'] = {"cls": b['script']['reply'], "cut": b['script']['cut']}
     entry = b['entry']
@@ -67,7 +75,7 @@ def run(tier, seed):
         raise pipeline.MachineryFailure('Proxy.tla violates %s' % res.violated)
     jobs = []
     for b in beh:
-        for variant in ((0, 1, 3) if q else (0, 1, 2, 3)):
+        for variant in ((0, 1, 3, 4) if q else (0, 1, 2, 3, 4)):
             sc, exp = scenario(b, variant)
             jobs.append((b, sc, exp))
     logs = pipeline.execute([j[1] for j in jobs])
